@@ -29,6 +29,8 @@ DECIDED_R7 = ('Round 7: the path re-reading handler covers UnicodeEncodeError; p
 DECIDED = DECIDED + ' ' + DECIDED_R7
 DECIDED_R8 = ('Round 8: what json.dumps produced is returned as it is (whole-text re-encodings aside).')
 DECIDED = DECIDED + ' ' + DECIDED_R8
+DECIDED_R9 = ('Round 9: when the JSON / HTML choice is made outside `default_error_handler`, every call of the renderer is under it (e).')
+DECIDED = DECIDED + ' ' + DECIDED_R9
 NOT_DECIDED = 'pages rendered with debug on (excluded by the statement); custom error handlers; html.escape itself (assumed).'
 ASSUMPTIONS = ['html.escape and the five replacements of html_escape neutralise markup', 'json.dumps yields valid JSON']
 
